@@ -87,8 +87,8 @@ def check(P, acc, case, depth=0):
     except BaseException as e:
         acc.violation(None, case, dict(desc, what="reduction API raised", exc=repr(e), depth=depth))
         return
-    if depth == 0:
-        # the same queries in the opposite order on a second, identical object
+    if depth == 0 and case.get("idx", 0) % 2 == 0:
+        # the same queries in the opposite order on a second, identical object (every second system)
         try:
             Q = mspace_clone(P)
             rows2, cols2 = Q.reducable_rows_and_columns()
